@@ -9,7 +9,7 @@ from checks.pipeline import replay as _replay
 TRACE = ('Enc_Trace.tla', 'Enc_Trace.cfg')
 CHECKER = 'java -cp tla2tools.jar tlc2.TLC -workers 1 -config Enc_Trace.cfg Enc_Trace.tla (TRACE=<ndjson>); design level: EncSetup_MC.tla / EncSetup_MC.cfg'
 C15_RULES = {'SetupReturnsDocumentedCode', 'OneStepFailureClearsInfo', 'SuccessReportsChannelsAndRate', 'OneStepSuccessFreezesSettings', 'SetupInitNeedsAChosenMode',
-             'SetupInitFreezesSettings', 'CtlReturnsDocumentedCode', 'NoChangeAfterSetupInit', 'UnknownRequestIsRefused', 'GetReturnsWhatWasSet',
+             'SetupInitFreezesSettings', 'CtlReturnsDocumentedCode', 'NoChangeAfterSetupInit', 'UnknownRequestIsRefused', 'GetReturnsWhatWasSet', 'InconsistentRateRequestRefused',
              'AnalysisInitSucceedsAfterSetup', 'HeaderOutSucceeds', 'IdHeaderMatchesInfo', 'WroteSucceeds', 'InfoClearEmptiesInfo', 'InfoInitGivesEmptyInfo',
              'PacketDecodes', 'HeadersAccepted', 'NoCrash', 'CallsTerminate', 'LibraryNeverExits', 'UnknownEvent'}
 
@@ -96,7 +96,7 @@ def fam_args(rng, n, dense=False):
         for _ in range(rng.choice([0, 1, 2])): ls.append('ectl 0 ' + rng.choice(CTLS_SET + CTLS_GET + CTLS_RAW))   # after set in stone
         if rng.random() < .1: ls.append('esetup 0')                                                            # second setup_init
         amount = rng.choice([0, 1, 5000]) if ch <= 17 else rng.choice([0, 1, 600])
-        ls += ['eainit 0', 'ehdr 0'] + ([f'ewrite 0 {amount} {rng.choice([0, 1, 2, 3])} 2048'] if amount else []) + ['eeof 0']
+        ls += ['eainit 0', 'ehdr 0'] + ([f'ewrite 0 {amount} {rng.choice([0, 1, 2, 3, 9, 9])} 2048'] if amount else []) + ['eeof 0']
         if rng.random() < .5: ls.append('dec 0 p 0 1')
         ls.append('eclear 0 ' + rng.choice(['bdci', 'bdcii', 'cbdi', 'bdic', 'bbddii']))
         out.append(Scn(f'arg-{i}', ls, 'argument-grid', budget=90, cost=40 + (amount * max(ch, 1)) // 100))
